@@ -12,6 +12,8 @@ def json_to_py(j):
         if 'd' in j:
             ks, vs = j['d']
             return {json_to_py(k): json_to_py(v) for k, v in zip(ks, vs)}
+        if 'a' in j and str(j['a']).startswith('float:'):
+            return float(j['a'][6:])
         raise ValueError(j)
     return j
 
